@@ -60,7 +60,10 @@ Upd(e) == uidc' = [uidc EXCEPT ![e] = @ + 1] /\ UNCHANGED <<savedS, nCrash>>   \
 \* ---- local decisions
 MAdd(e) == \E a \in Amounts :
   /\ nAdd[e] < MaxAdds /\ redo[e].upd = {} /\ ~redo[e].cs
-  /\ a + 200000 <= BalSelf(e, FALSE)          \* the sender can afford it (coarse admission rule)
+  \* the sender can afford it out of its irrevocable balance: like the implementation it does not
+  \* spend HTLCs it has fulfilled but whose removal is not irrevocable yet (a retransmission may
+  \* deliver the add before the fulfil)
+  /\ a + 200000 <= base[e] - Sum({h \in hs[e] : h.dir = "out"})
   /\ SendAdd(e, nAdd[e], a, 10 * e[2] + nAdd[e])
   /\ Push(e, [k |-> "add", id |-> nAdd[e], amt |-> a, hash |-> 10 * e[2] + nAdd[e]])
   /\ nAdd' = [nAdd EXCEPT ![e] = @ + 1]
